@@ -1,4 +1,436 @@
 /-
-C01 — placeholder until the DPOR pillar theorems land: the DFS facts of C14 that C01 rests on.
+Property C01 ("every interleaving outcome is explored"): the *local pillars* of the DPOR
+argument, proved of the twin of `src/rt/{path,execution,object,access}.rs`, the validity of
+loom's independence assumptions against the reference semantics `Spec/SC.lean`, and a
+kernel-checked witness that the full completeness statement is false of the twin (finding F1).
+
+Vocabulary (definitions in `LoomVerif/Proofs/`):
+
+* `Sched.MarkSpec s tid s'` (`C01Backtrack`)  the marking rule of `Schedule::backtrack`; unfolded
+  by `Sched.markSpec_def` below.
+* `Path.NoExploringSchedAt p j`  entry `j` of `p` is not an exploring schedule entry.
+* `Path.ConsWalk p c r`  the conservative walk of preemption-bounded DPOR from schedule entry `c`
+  along `prev` links ends with target `r`; its four rules are restated by `Path.consWalk_def`.
+* `Path.PrevDecr p`  every `prev` link points to a strictly smaller index (an invariant of all
+  stacks built by the API: `Path.prevDecr_invariant`); it makes the fuel of
+  `backtrackConservative` irrelevant.
+* `Exec.raceOf e th`, `Exec.dporStep`, `Exec.dporSpec` (`C01Sched`)  the DPOR loop as a fold.
+* `Exec.initial`, `Exec.choice`, `Exec.seedSt`, `Exec.IsPick` (`C01Choice`)  the choice of the
+  next thread.
+* `Dep.AtomicInvisible x y` etc. (`DepTables`): recording an access with action `x` does not
+  change the slot consulted by a later operation with action `y`.
+* `SC.NextOp p s t op` (`DepSC`): in the reference semantics thread `t` is not inside a `cvwait`
+  and its next operation is `op`; `SC.doLoad`, `SC.doSend`, `SC.doRecv`, `SC.doClone`,
+  `SC.doDropBig`: the successor state of the corresponding single step.
 -/
-import LoomVerif.Props.C14
+import LoomVerif.Proofs.C18Yield
+import LoomVerif.Proofs.DepTables
+import LoomVerif.Proofs.C01False
+
+namespace LoomVerif.C01
+open LoomVerif
+
+/-! ## 1. `Path.backtrack` -/
+
+/-- `Thread::explore` changes a thread state only by `skip ↦ pending`. -/
+theorem explore_def (t : ThSt) : t.explore = if t = .skip then .pending else t :=
+  ThSt.explore_eq t
+
+/-- The marking rule: only `threads` changes and keeps its length; `tid` out of range: nothing
+changes; thread `tid` enabled: it is `explore`d, all others unchanged; thread `tid` `disabled`:
+every thread is `explore`d. -/
+theorem Sched.markSpec_def (s : Sched) (tid : Nat) (s' : Sched) :
+    Sched.MarkSpec s tid s' ↔
+      s' = { s with threads := s'.threads } ∧
+      s'.threads.length = s.threads.length ∧
+      (s.threads.length ≤ tid → s'.threads = s.threads) ∧
+      (∀ st, s.threads[tid]? = some st → st ≠ .disabled →
+        s'.threads[tid]? = some st.explore ∧ ∀ j : Nat, j ≠ tid → s'.threads[j]? = s.threads[j]?) ∧
+      (s.threads[tid]? = some .disabled →
+        ∀ j : Nat, s'.threads[j]? = (s.threads[j]?).map ThSt.explore) :=
+  ⟨fun h => ⟨h.fields, h.length, h.outOfRange, h.enabled, h.disabled⟩,
+   fun ⟨a, b, c, d, e⟩ => ⟨a, b, c, d, e⟩⟩
+
+/-- In all cases no thread state changes other than `skip → pending`; in particular `yield`,
+`active`, `visited`, `pending`, `disabled` marks are kept. -/
+theorem Sched.mark_only_skip_pending {s s' : Sched} {tid : Nat} (h : Sched.MarkSpec s tid s') :
+    ∀ (j : Nat) (st st' : ThSt), s.threads[j]? = some st → s'.threads[j]? = some st' → st' ≠ st →
+      st = .skip ∧ st' = .pending :=
+  h.only_skip_pending
+
+/-- `Schedule::backtrack` (one entry): succeeds iff the entry is exploring and within the bound;
+without a bound it marks; with bound `b` it marks unless `preemptions = b`. -/
+theorem Sched.backtrack_post (s s' : Sched) (tid : Nat) (bound : Option Nat) :
+    s.backtrack tid bound = .ok s' ↔
+      s.exploring = true ∧
+      match bound with
+      | none => Sched.MarkSpec s tid s'
+      | some b => s.preemptions ≤ b ∧
+          (s.preemptions = b → s' = s) ∧ (s.preemptions ≠ b → Sched.MarkSpec s tid s') :=
+  Sched.backtrack_spec s s' tid bound
+
+/-- The first loop of `Path::backtrack` finds the nearest exploring schedule entry at or below
+`point`. -/
+theorem Path.findExploringSched_post (p : Path) (point : Nat) :
+    (∀ i s, p.findExploringSched point = some (i, s) ↔
+      i ≤ point ∧ p.schedAt i = some s ∧ s.exploring = true ∧
+      ∀ j, i < j → j ≤ point → p.NoExploringSchedAt j) ∧
+    (p.findExploringSched point = none ↔ ∀ j, j ≤ point → p.NoExploringSchedAt j) :=
+  ⟨fun i s => Path.findExploringSched_spec p point i s, Path.findExploringSched_none p point⟩
+
+/-- `Path.backtrack_post`, unbounded case: with `(i, s)` the nearest exploring schedule entry at
+or below `point` — if there is none `p' = p`; otherwise `p'` differs from `p` exactly in entry
+`i`, which is `s` marked for `tid`. -/
+theorem Path.backtrack_post {p p' : Path} {point tid : Nat} (hb : p.bound = none)
+    (h : p.backtrack point tid = .ok p') :
+    point < p.branches.length ∧
+    match p.findExploringSched point with
+    | none => p' = p
+    | some (i, s) =>
+      ∃ s', Sched.MarkSpec s tid s' ∧ p' = { p with branches := p.branches.set i (.sched s') } :=
+  Path.backtrack_post_unbounded hb h
+
+/-- The four rules of the conservative walk.  From entry `c` (schedule `cs`):
+`hit`: `cs.prev = some q`, the active threads of `c` and `q` differ and `cs` is exploring —
+target `c`; `root`/`rootSkip`: `cs.prev = none` — target `c` if `cs` is exploring, else no
+target; `next`: `cs.prev = some q` and (same active thread, or `cs` not exploring) — continue
+from `q`.  (So an entry whose active thread differs from its predecessor's but which is not
+exploring is passed over.) -/
+theorem Path.consWalk_def (p : Path) (c : Nat) (r : Option Nat) :
+    Path.ConsWalk p c r ↔
+      ∃ cs, p.schedAt c = some cs ∧
+        match cs.prev with
+        | none => r = if cs.exploring then some c else none
+        | some q => ∃ ps, p.schedAt q = some ps ∧
+            if cs.activeIdx ≠ ps.activeIdx ∧ cs.exploring = true then r = some c
+            else Path.ConsWalk p q r :=
+  LoomVerif.Path.consWalk_iff p c r
+
+/-- the walk is deterministic, its target is an exploring schedule entry at or below its start -/
+theorem Path.consWalk_props {p : Path} {c : Nat} :
+    (∀ r1 r2, Path.ConsWalk p c r1 → Path.ConsWalk p c r2 → r1 = r2) ∧
+    (∀ t, Path.ConsWalk p c (some t) → ∃ ts, p.schedAt t = some ts ∧ ts.exploring = true) ∧
+    (Path.PrevDecr p → ∀ t, Path.ConsWalk p c (some t) → t ≤ c) :=
+  ⟨fun _ _ h1 h2 => h1.unique h2, fun _ h => h.target, fun hp _ h => h.target_le hp⟩
+
+/-- `PrevDecr` holds initially and is kept by `branchThread`, `backtrack` and `schedule`. -/
+theorem Path.prevDecr_invariant :
+    (∀ cap bound x, Path.PrevDecr (Path.new cap bound x)) ∧
+    (∀ p p' seed pk r, Path.PrevDecr p → p.branchThread seed pk = .ok (p', r) →
+      Path.PrevDecr p') ∧
+    (∀ p p' point tid, Path.PrevDecr p → p.backtrack point tid = .ok p' → Path.PrevDecr p') :=
+  ⟨Path.PrevDecr.new, fun _ _ _ _ _ hp h => hp.branchThread h, fun _ _ _ _ hp h => hp.backtrack h⟩
+
+/-- `Path.backtrack_post`, bounded case (`p.bound = some b`): entry `i` gets the same marking
+unless `s.preemptions = b` (then it is unchanged); then, if `s.prev = some curr`, the
+conservative walk from `curr` (in the updated stack) selects at most one further entry `t`,
+which is marked by the same rule, subject to the same `preemptions = b` early return.  Nothing
+else changes.  (`s.preemptions ≤ b` and `cs.preemptions ≤ b` are the `assert!`s that passed.) -/
+theorem Path.backtrack_post_bounded {p p' : Path} {point tid b : Nat} (hb : p.bound = some b)
+    (hp : Path.PrevDecr p) (h : p.backtrack point tid = .ok p') :
+    point < p.branches.length ∧
+    match p.findExploringSched point with
+    | none => p' = p
+    | some (i, s) =>
+      s.preemptions ≤ b ∧
+      ∃ s', (s.preemptions = b → s' = s) ∧ (s.preemptions ≠ b → Sched.MarkSpec s tid s') ∧
+        match s.prev with
+        | none => p' = p.setSched i s'
+        | some curr =>
+          ∃ r, Path.ConsWalk (p.setSched i s') curr r ∧
+            match r with
+            | none => p' = p.setSched i s'
+            | some t =>
+              ∃ cs cs', (p.setSched i s').schedAt t = some cs ∧ cs.exploring = true ∧
+                cs.preemptions ≤ b ∧ (cs.preemptions = b → cs' = cs) ∧
+                (cs.preemptions ≠ b → Sched.MarkSpec cs tid cs') ∧
+                p' = (p.setSched i s').setSched t cs' :=
+  LoomVerif.Path.backtrack_post_bounded hb hp h
+
+/-! ## 2. the DPOR loop of `schedule` -/
+
+/-- The backtrack point requested on behalf of a thread, the loop body, the loop. -/
+theorem Exec.dpor_defs (e : Exec) :
+    (∀ th, e.raceOf th =
+      match th.operation with
+      | none => .ok none
+      | some op =>
+        match e.objs.lastDependentAccess op with
+        | .error err => .error err
+        | .ok none => .ok none
+        | .ok (some acc) =>
+          if acc.happensBefore th.dporVV then .ok none else .ok (some acc.pathId)) ∧
+    (∀ p x, Exec.dporStep e p x =
+      match e.raceOf x.1 with
+      | .error err => .error err
+      | .ok none => .ok p
+      | .ok (some point) => p.backtrack point x.2) ∧
+    e.dporSpec = e.threads.threads.zipIdx.foldlM (Exec.dporStep e) e.path :=
+  ⟨fun _ => rfl, fun _ _ => rfl, rfl⟩
+
+/-- `Exec.schedule_race_post`: the DPOR loop applies, for each thread index `i` in increasing
+order whose pending operation has a last dependent access `acc` that does not happen-before the
+thread, the call `Path.backtrack · acc.pathId i`; other threads contribute nothing; if no thread
+has a racing pending operation the path is unchanged. -/
+theorem Exec.schedule_race_post (e : Exec) :
+    e.dporMarks = e.dporSpec ∧
+    ((∀ th ∈ e.threads.threads, e.raceOf th = .ok none) → e.dporMarks = .ok e.path) :=
+  ⟨Exec.dporMarks_eq e, Exec.dporMarks_no_race e⟩
+
+/-- The DPOR loop is a frame step that keeps the length, the cursor and the flags. -/
+theorem Exec.dporMarks_frame {e : Exec} {p' : Path} (h : e.dporMarks = .ok p') :
+    Path.Frame e.path p' ∧ p'.branches.length = e.path.branches.length ∧
+      p' = { e.path with branches := p'.branches } ∧
+      (Path.PrevDecr e.path → Path.PrevDecr p') :=
+  LoomVerif.Exec.dporMarks_frame h
+
+/-- `Exec.schedule_frame` -/
+theorem Exec.schedule_frame {e e' : Exec} {pk b : Bool} (h : e.schedule pk = .ok (e', b)) :
+    Path.Frame e.path e'.path ∧ e'.path.pos = e.path.pos + 1 ∧
+      (Path.PrevDecr e.path → Path.PrevDecr e'.path) :=
+  LoomVerif.Exec.schedule_frame h
+
+/-! ## 3. the choice of the next thread -/
+
+theorem Exec.choice_def (ths : Threads) :
+    Exec.choice ths =
+      if ths.activeT.isRunnable then some ths.activeId
+      else match Exec.pickInitial ths.threads with
+        | some m => some m
+        | none => findIdx? Thread.isYield ths.threads := rfl
+
+/-- `pickInitial`: the runnable thread with the smallest `yieldCount`, first among equals;
+`none` iff no thread is runnable. -/
+theorem Exec.pickInitial_post (ths : List Thread) :
+    (∀ m, Exec.pickInitial ths = some m →
+      ∃ tm, ths[m]? = some tm ∧ tm.isRunnable = true ∧
+        ∀ j th, ths[j]? = some th → th.isRunnable = true →
+          tm.yieldCount ≤ th.yieldCount ∧ (j < m → tm.yieldCount < th.yieldCount)) ∧
+    (Exec.pickInitial ths = none ↔ ∀ th ∈ ths, th.isRunnable = false) :=
+  ⟨fun _ h => Exec.pickInitial_eq_some h, Exec.pickInitial_eq_none ths⟩
+
+/-- The chosen thread: the active thread if it is runnable ("avoid preemption"); otherwise the
+runnable thread with the smallest `yieldCount` (first among equals); if no thread is runnable,
+the first thread in `yield` state; none iff no thread is runnable or yielded. -/
+theorem Exec.choice_post (ths : Threads) (hc : ths.activeId < ths.threads.length) :
+    (ths.activeT.isRunnable = true → Exec.choice ths = some ths.activeId) ∧
+    (ths.activeT.isRunnable = false → ∀ m, Exec.choice ths = some m →
+      ∃ tm, ths.threads[m]? = some tm ∧
+        ((tm.isRunnable = true ∧
+            ∀ j th, ths.threads[j]? = some th → th.isRunnable = true →
+              tm.yieldCount ≤ th.yieldCount ∧ (j < m → tm.yieldCount < th.yieldCount)) ∨
+         (tm.isYield = true ∧ (∀ th ∈ ths.threads, th.isRunnable = false) ∧
+            ∀ j th, j < m → ths.threads[j]? = some th → th.isYield = false))) ∧
+    ((∃ th ∈ ths.threads, th.isRunnable = true) →
+      ∃ m tm, Exec.choice ths = some m ∧ ths.threads[m]? = some tm ∧ tm.isRunnable = true) ∧
+    (Exec.choice ths = none ↔ ∀ th ∈ ths.threads, th.isRunnable = false ∧ th.isYield = false) :=
+  Exec.choice_spec ths hc
+
+/-- The seed: the chosen thread is `active`; of the others, yielded threads are `yield`,
+runnable ones `skip`, all others `disabled`; never `pending` or `visited`. -/
+theorem Exec.seed_states (c : Option Nat) (i : Nat) (th : Thread) :
+    (Exec.seedSt c i th = .active ↔ c = some i) ∧
+    (Exec.seedSt c i th = .yield ↔ c ≠ some i ∧ th.isYield = true) ∧
+    (Exec.seedSt c i th = .skip ↔ c ≠ some i ∧ th.isRunnable = true) ∧
+    (Exec.seedSt c i th = .disabled ↔ c ≠ some i ∧ th.isYield = false ∧ th.isRunnable = false) ∧
+    Exec.seedSt c i th ≠ .pending ∧ Exec.seedSt c i th ≠ .visited :=
+  Exec.seedSt_cases c i th
+
+/-- `Exec.schedule_choice`: when `schedule` pushes a new entry (the path is traversed; the
+active thread id is in range) the next active thread is `choice e.threads`, and the pushed
+entry `s` records it as `active` and every other thread `i` as `seedSt … i` (padded with
+`disabled` up to `MAX_THREADS`). -/
+theorem Exec.schedule_choice {e e' : Exec} {pk b : Bool} (ht : e.path.isTraversed = true)
+    (hc : e.threads.activeId < e.threads.threads.length) (h : e.schedule pk = .ok (e', b)) :
+    e'.threads.active = Exec.choice e.threads ∧
+    ∃ p1 s, e.dporMarks = .ok p1 ∧
+      e'.path = { p1 with pos := p1.pos + 1, branches := p1.branches ++ [.sched s] } ∧
+      s.threads =
+        Path.padTo (e.threads.threads.mapIdx (Exec.seedSt (Exec.choice e.threads))) NT .disabled ∧
+      s.activeIdx = Exec.choice e.threads ∧ s.exploring = p1.exploring ∧
+      s.prev = p1.lastSchedule :=
+  LoomVerif.Exec.schedule_choice ht hc h
+
+/-- … and what `schedule` returns, in terms of `choice`, when the DPOR loop succeeds, the branch
+limit is respected and the thread table fits: with no choice, `.ok (_, true)` iff all threads
+are terminated and `.error .deadlock` otherwise. -/
+theorem Exec.schedule_result {e : Exec} {pk : Bool} {p1 : Path}
+    (ha : e.threads.isActive = true) (hc : e.threads.activeId < e.threads.threads.length)
+    (ht : e.path.isTraversed = true) (hlen : e.path.assertLen pk = .ok ())
+    (hnt : e.threads.threads.length ≤ NT) (hd : e.dporMarks = .ok p1) :
+    e.schedule pk =
+      match Exec.choice e.threads with
+      | none =>
+        if e.threads.threads.all Thread.isTerminated then
+          .ok ({ e with path := e.pushed p1, threads := { e.threads with active := none } }, true)
+        else .error .deadlock
+      | some nid => e.finish (e.pushed p1) p1.pos nid :=
+  Exec.schedule_traversed_eq ha hc ht hlen hnt hd
+
+/-! ## 4. the dependence tables and their validity -/
+
+/-- Which slot an operation consults and which slots it writes, per object kind. -/
+theorem Dep.tables :
+    (∀ (a : Atomic) act,
+      a.lastDependentAccess act = if act = .atomLoad then a.lastNonLoad else a.lastAccess) ∧
+    (∀ (a : Atomic) act pid v,
+      (a.setLastAccess act pid v).lastAccess = some ⟨pid, v⟩ ∧
+      (a.setLastAccess act pid v).lastNonLoad =
+        if act = .atomLoad then a.lastNonLoad else some ⟨pid, v⟩) ∧
+    (∀ s : ChanSt,
+      s.lastDependentAccess .chanSend = s.lastSend ∧ s.lastDependentAccess .chanRecv = s.lastRecv) ∧
+    (∀ (s : ChanSt) pid v,
+      s.setLastAccess .chanSend pid v = { s with lastSend := some ⟨pid, v⟩ } ∧
+      s.setLastAccess .chanRecv pid v = { s with lastRecv := some ⟨pid, v⟩ }) ∧
+    (∀ s : ArcSt,
+      s.lastDependentAccess .arcInc = s.lastInspect ∧
+      s.lastDependentAccess .arcDec = s.lastDec ∧
+      s.lastDependentAccess .arcInspect =
+        (match s.lastMod with
+         | some .inc => s.lastInc
+         | some .dec => s.lastDec
+         | none => none)) ∧
+    (∀ (s : ArcSt) pid v,
+      s.setLastAccess .arcInc pid v = { s with lastMod := some .inc, lastInc := some ⟨pid, v⟩ } ∧
+      s.setLastAccess .arcDec pid v = { s with lastMod := some .dec, lastDec := some ⟨pid, v⟩ } ∧
+      s.setLastAccess .arcInspect pid v = { s with lastInspect := some ⟨pid, v⟩ }) ∧
+    -- mutex / rwlock / condvar / notify: one slot, consulted and written by every access
+    (∀ (os os' : Objs) (op op' : Operation) pid v,
+      ((∃ s, os[op.obj]? = some (.mutex s)) ∨ (∃ s, os[op.obj]? = some (.rwlock s)) ∨
+        (∃ s, os[op.obj]? = some (.condvar s)) ∨ (∃ s, os[op.obj]? = some (.notify s))) →
+      os.setLastAccess op pid v = .ok os' → op'.obj = op.obj →
+      os'.lastDependentAccess op' = .ok (some ⟨pid, v⟩)) :=
+  ⟨LoomVerif.Dep.atomic_consults, LoomVerif.Dep.atomic_records, LoomVerif.Dep.chan_consults,
+   LoomVerif.Dep.chan_records, LoomVerif.Dep.arc_consults, LoomVerif.Dep.arc_records,
+   LoomVerif.Dep.opaque_kinds⟩
+
+theorem Dep.invisible_def (x y : Action) :
+    (LoomVerif.Dep.AtomicInvisible x y ↔ ∀ (a : Atomic) pid v,
+      (a.setLastAccess x pid v).lastDependentAccess y = a.lastDependentAccess y) ∧
+    (LoomVerif.Dep.ChanInvisible x y ↔ ∀ (s : ChanSt) pid v,
+      (s.setLastAccess x pid v).lastDependentAccess y = s.lastDependentAccess y) ∧
+    (LoomVerif.Dep.ArcInvisible x y ↔ ∀ (s : ArcSt) pid v,
+      (s.setLastAccess x pid v).lastDependentAccess y = s.lastDependentAccess y) :=
+  ⟨Iff.rfl, Iff.rfl, Iff.rfl⟩
+
+/-- `Dep.independent_pairs`: an earlier access `x` is invisible to a later operation `y` on the
+same object exactly for: atomic load/load; channel send/recv (either order); `Arc` inc/inc,
+inc/dec, dec/inc, inspect/inspect, and dec-after-inspect. -/
+theorem Dep.independent_pairs :
+    (∀ x y, x ∈ [Action.atomLoad, .atomStore, .atomRmw] →
+      y ∈ [Action.atomLoad, .atomStore, .atomRmw] →
+      (LoomVerif.Dep.AtomicInvisible x y ↔ (x, y) = (.atomLoad, .atomLoad))) ∧
+    (∀ x y, x ∈ [Action.chanSend, .chanRecv] → y ∈ [Action.chanSend, .chanRecv] →
+      (LoomVerif.Dep.ChanInvisible x y ↔ x ≠ y)) ∧
+    (∀ x y, x ∈ [Action.arcInc, .arcDec, .arcInspect] →
+      y ∈ [Action.arcInc, .arcDec, .arcInspect] →
+      (LoomVerif.Dep.ArcInvisible x y ↔ (x, y) ∈ [(Action.arcInc, Action.arcInc),
+        (.arcInc, .arcDec), (.arcDec, .arcInc), (.arcInspect, .arcDec),
+        (.arcInspect, .arcInspect)])) :=
+  LoomVerif.Dep.independent_pairs
+
+/-- (i) Two loads of the same atomic by different threads commute in `Spec/SC`: both orders
+lead to the same state (same returned values, same cell, same clocks). -/
+theorem Dep.load_load_commute {p : Prog} {s : SC.St} {t u x : Nat} {o o' : Ord} (htu : t ≠ u)
+    (ht : SC.NextOp p s t (.atom x (.load o))) (hu : SC.NextOp p s u (.atom x (.load o'))) :
+    (SC.step p s t).flatMap (fun s' => SC.step p s' u) =
+      (SC.step p s u).flatMap (fun s' => SC.step p s' t) ∧
+    (SC.step p s t).flatMap (fun s' => SC.step p s' u) =
+      [SC.doLoad (SC.doLoad s t x o) u x o'] :=
+  SC.load_load_commute htu ht hu
+
+/-- (ii) `send q v` by `t` and `recv q` by `u ≠ t` on a non-empty queue commute: both orders
+lead to the same state (same queue content, `u` receives the head `v0`). -/
+theorem Dep.send_recv_commute {p : Prog} {s : SC.St} {t u q : Nat} {v v0 : Int} {c0 : VV}
+    {rest : List (Int × VV)} (htu : t ≠ u)
+    (ht : SC.NextOp p s t (.send q v)) (hu : SC.NextOp p s u (.recv q))
+    (hq : s.chan.getD q [] = (v0, c0) :: rest) :
+    (SC.step p s t).flatMap (fun s' => SC.step p s' u) =
+      (SC.step p s u).flatMap (fun s' => SC.step p s' t) ∧
+    (SC.step p s u).flatMap (fun s' => SC.step p s' t) =
+      [SC.doSend (SC.doRecv s u q v0 c0 rest) t q v] :=
+  SC.send_recv_commute htu ht hu hq
+
+/-- (iii) `arcClone hd h2` by `t` and `arcDrop hd'` by `u ≠ t` on the same arc `a` (through
+different handles `hd ≠ hd'`, `h2 ≠ hd'`) with strong count `n ≥ 2` commute: both orders lead to
+the same state; the final count is `n`; the drop returns "not last" in both. -/
+theorem Dep.arcClone_arcDrop_commute {p : Prog} {s : SC.St} {t u hd h2 hd' a n : Nat} {rel : VV}
+    (htu : t ≠ u) (ht : SC.NextOp p s t (.arcClone hd h2)) (hu : SC.NextOp p s u (.arcDrop hd'))
+    (ha : SC.arcOf s hd = some a) (ha' : SC.arcOf s hd' = some a) (hne1 : hd ≠ hd')
+    (hne2 : h2 ≠ hd') (hn : s.arcs[a]? = some (n, rel)) (h2n : 2 ≤ n) :
+    (SC.step p s t).flatMap (fun s' => SC.step p s' u) =
+      (SC.step p s u).flatMap (fun s' => SC.step p s' t) ∧
+    (SC.step p s u).flatMap (fun s' => SC.step p s' t) =
+      [SC.doClone (SC.doDropBig s u hd' a n rel) t h2 a] ∧
+    (SC.doClone (SC.doDropBig s u hd' a n rel) t h2 a).arcs[a]? =
+      some (n, rel.join ((s.tick u).vc u)) :=
+  SC.arcClone_arcDrop_commute htu ht hu ha ha' hne1 hne2 hn h2n
+
+/-- (iv) finding F10: `strong_count` by thread 0 and `drop` by thread 1 on the same `Arc`
+(count 2), both enabled, do NOT commute in `Spec/SC` — the count returned is 2 in one order and
+1 in the other — yet loom never orders a later `RefDec` after an earlier `Inspect`.
+(`progF10 = T0: acount 0 | T1: adrop 1`.) -/
+theorem Dep.arc_inspect_dec_not_independent :
+    SC.NextOp LoomVerif.Dep.progF10 LoomVerif.Dep.stF10 0 (.arcCount 0) ∧
+    SC.NextOp LoomVerif.Dep.progF10 LoomVerif.Dep.stF10 1 (.arcDrop 1) ∧
+    SC.arcOf LoomVerif.Dep.stF10 0 = some 0 ∧ SC.arcOf LoomVerif.Dep.stF10 1 = some 0 ∧
+    SC.enabled LoomVerif.Dep.progF10 LoomVerif.Dep.stF10 0 = true ∧
+    SC.enabled LoomVerif.Dep.progF10 LoomVerif.Dep.stF10 1 = true ∧
+    ((SC.step LoomVerif.Dep.progF10 LoomVerif.Dep.stF10 0).flatMap
+        (fun s => SC.step LoomVerif.Dep.progF10 s 1)).map (fun s => (s.th 0).rets)
+      = [[(0, .val 2)]] ∧
+    ((SC.step LoomVerif.Dep.progF10 LoomVerif.Dep.stF10 1).flatMap
+        (fun s => SC.step LoomVerif.Dep.progF10 s 0)).map (fun s => (s.th 0).rets)
+      = [[(0, .val 1)]] ∧
+    LoomVerif.Dep.ArcInvisible .arcInspect .arcDec :=
+  LoomVerif.Dep.arc_inspect_dec_not_independent
+
+/-- (v) finding F7, twin side: `try_recv` on a channel without messages completes at once with
+`empty`, without a `branch` call: it is not a scheduling point and leaves the execution
+untouched. -/
+theorem Dep.tryRecv_empty_no_branch (w : World) (c : TCtl) (q : Nat) (s : ChanSt)
+    (hc : c.stage = 0) (hs : w.getChan (w.chanObj q) = .ok s) (h0 : s.msgCnt = 0) :
+    w.runOp c (.tryRecv q) = .ok (w.complete .empty) ∧ (w.complete .empty).exec = w.exec :=
+  LoomVerif.Dep.tryRecv_empty_no_branch w c q s hc hs h0
+
+/-- (v) finding F7, reference side: `try_recv` on an empty queue by thread 0 and `send` by thread
+1, both enabled, do NOT commute: thread 0 gets `empty` in one order and the message in the other.
+(`progF7 = cfg q=1 | T0: tryrecv 0 | T1: send 0 7`.) -/
+theorem Dep.tryrecv_send_not_independent :
+    SC.NextOp LoomVerif.Dep.progF7 LoomVerif.Dep.stF7 0 (.tryRecv 0) ∧
+    SC.NextOp LoomVerif.Dep.progF7 LoomVerif.Dep.stF7 1 (.send 0 7) ∧
+    LoomVerif.Dep.stF7.chan.getD 0 [] = [] ∧
+    SC.enabled LoomVerif.Dep.progF7 LoomVerif.Dep.stF7 0 = true ∧
+    SC.enabled LoomVerif.Dep.progF7 LoomVerif.Dep.stF7 1 = true ∧
+    ((SC.step LoomVerif.Dep.progF7 LoomVerif.Dep.stF7 0).flatMap
+        (fun s => SC.step LoomVerif.Dep.progF7 s 1)).map (fun s => (s.th 0).rets)
+      = [[(0, .empty)]] ∧
+    ((SC.step LoomVerif.Dep.progF7 LoomVerif.Dep.stF7 1).flatMap
+        (fun s => SC.step LoomVerif.Dep.progF7 s 0)).map (fun s => (s.th 0).rets)
+      = [[(0, .val 7)]] :=
+  LoomVerif.Dep.tryrecv_send_not_independent
+
+/-! ## 5. the full statement is false of the twin (finding F1) -/
+
+/-- `F1.prog = cfg x=1 | T0: spawn 1; st 0 1 rlx; ld 0 rlx; join 1 | T1: ld 0 rlx; st 0 2 rlx`.
+(a) The reference semantics has a normally ending execution where T0's load returns 2 and T1's
+load returns 1; (b) the twin explores the program to completion in 13 iterations, none of which
+panics or shows these two values together. -/
+theorem C01_full_false_witness :
+    (∃ l, SC.outcomesNaive F1.prog 40 (SC.init F1.prog) = some l ∧
+      ∃ o ∈ l, o.verdict = .ok ∧ (0, 2, Ret.val 2) ∈ o.rets ∧ (1, 0, Ret.val 1) ∈ o.rets) ∧
+    (Check.run F1.prog).2 = .completed ∧ (Check.run F1.prog).1.length = 13 ∧
+    (Check.run F1.prog).1.all
+      (fun it => it.result.term == none && !F1.badPair it.result.events) = true :=
+  ⟨F1.sc_has, F1.twin_misses⟩
+
+/-- `C01_full_false`: "every outcome of the reference semantics is shown by some iteration of
+the exploration" (`F1.TwinComplete`, unfolded on the right) fails for `F1.prog`. -/
+theorem C01_full_false :
+    ¬ (∀ l, SC.outcomesNaive F1.prog 40 (SC.init F1.prog) = some l →
+        ∀ o ∈ l, ∃ it ∈ (Check.run F1.prog).1,
+          ∀ t pc r, (t, pc, r) ∈ o.rets →
+            ∃ e ∈ it.result.events, e.tid = t ∧ e.pc = pc ∧ e.ret = r) :=
+  F1.not_complete
+
+end LoomVerif.C01
